@@ -1,7 +1,70 @@
 import VermouthModel.Proto
-open Proto
+import VermouthModel.C04
+open Proto Iso C04
 
-/-- placeholder driver for C04: replaced when the model is written -/
-def handle (_ : Unit) (_ : List Tok) : Unit × String := ((), "bad-op")
+def attrOf (t : Tok) : Option (String × String) := do
+  match ← t.list? with
+  | [k, v] => pure (← k.str?, ← v.str?)
+  | _ => none
+
+def atomOf (t : Tok) : Option Atom := do
+  match ← t.list? with
+  | [k, n, e, as, p] =>
+      pure { key := ← k.int?, name := ← n.str?, elem := ← e.int?,
+             attrs := ← (← as.list?).mapM attrOf, ptm := (← p.optInt?).map (· != 0) }
+  | _ => none
+
+def pairOf (t : Tok) : Option (Int × Int) := do
+  match ← t.list? with
+  | [u, v] => pure (← u.int?, ← v.int?)
+  | _ => none
+
+def pairsOf (t : Tok) : Option (List (Int × Int)) := do (← t.list?).mapM pairOf
+
+def residueOf (t : Tok) : Option Residue := do
+  match ← t.list? with
+  | [bn, be, f, m, c] =>
+      pure { block := { nodes := ← (← bn.list?).mapM atomOf, edges := ← pairsOf be },
+             found := ← ints? f, mtch := ← pairsOf m, common := ← (← c.list?).mapM attrOf }
+  | _ => none
+
+def graphOf (ns es : Tok) : Option Graph := do
+  pure { nodes := ← pairsOf ns, edges := (← pairsOf es).map fun e => (e.1, e.2, 0) }
+
+def encAttr (p : String × String) : String := encList [encStr p.1, encStr p.2]
+
+def encAtom (a : Atom) : String :=
+  encList [encInt a.key, encStr a.name, encInt a.elem, encList (a.attrs.map encAttr), encOptInt (a.ptm.map fun b => if b then 1 else 0)]
+
+def encPair (p : Int × Int) : String := encList [encInt p.1, encInt p.2]
+
+def normEdge (e : Int × Int) : Int × Int := if e.1 ≤ e.2 then e else (e.2, e.1)
+
+def edgeLe (a b : Int × Int) : Bool := a.1 < b.1 || (a.1 == b.1 && a.2 ≤ b.2)
+
+/-- edge SET in canonical form (the order of networkx' adjacency is not part of the behaviour) -/
+def canonEdges (es : List (Int × Int)) : List (Int × Int) := ((es.map normEdge).mergeSort edgeLe).eraseDups
+
+def encEvent : Event → String
+  | .missing n h => encList [encStr "missing", encStr n, encBool h]
+  | .adding _ n h => encList [encStr "adding", encStr n, encBool h]
+  | .lost n => encList [encStr "lost", encStr n]
+
+def handle (_ : Unit) (toks : List Tok) : Unit × String :=
+  let r : Option String :=
+    match toks with
+    | [Tok.str "repair", ns, es, rs] => do
+        let m : Mol := { nodes := ← (← ns.list?).mapM atomOf, edges := ← pairsOf es }
+        let rs ← (← rs.list?).mapM residueOf
+        let (out, ms, log) := repairGraph m rs
+        pure (" ".intercalate [encList (out.nodes.map encAtom), encList ((canonEdges out.edges).map encPair),
+                               encList (ms.map fun M => encList (M.map encPair)), encList (log.map encEvent)])
+    | [Tok.str "mcis", gn, ge, sn, se] => do
+        pure (encNat (mcisSize (← graphOf gn ge) (← graphOf sn se)))
+    | [Tok.str "connected", bn, be] => do
+        let b : Block := { nodes := ← (← bn.list?).mapM atomOf, edges := ← pairsOf be }
+        pure (encBool (connectedB b))
+    | _ => none
+  ((), r.getD "bad-op")
 
 def main : IO Unit := runDriver handle ()
